@@ -25,6 +25,8 @@ enum Act {
     AckWrong,
     AckShort,
     AckTrailing,  // correct digest followed by extra bytes (oversized)
+    /// digest of the cookie and a fixed number nobody issued in this handshake: 0, 1, the creation (42), 2^32-1
+    AckOfFixed(u32),
     Disconnect,
 }
 
@@ -80,6 +82,7 @@ fn apply(rep: &Report, r: &mut Run, a: &Act, hist: &[Act]) -> Option<bool> {
             Act::AckWrong => (r.m.handle_challenge_ack(&hs_ack(&[0x5a; 16])).is_ok(), None),
             Act::AckShort => (r.m.handle_challenge_ack(&hs_ack(&dist_digest(COOKIE, r.revealed_current.unwrap_or(5)))[..12]).is_ok(), None),
             Act::AckTrailing => { let mut b = hs_ack(&dist_digest(COOKIE, r.revealed_current.unwrap())); b.extend_from_slice(&[1, 2, 3]); (r.m.handle_challenge_ack(&b).is_ok(), None) }
+            Act::AckOfFixed(n) => (r.m.handle_challenge_ack(&hs_ack(&dist_digest(COOKIE, *n))).is_ok(), None),
             Act::Disconnect => { r.m.disconnect(); (true, None) }
         }
     }));
@@ -135,6 +138,7 @@ fn enabled(r: &Run) -> Vec<Act> {
     let mut v = vec![Act::Begin, Act::PrepName, Act::Status("ok"), Act::Status("ok_simultaneous"), Act::Status("nok"), Act::Status("not_allowed"), Act::Status("alive"), Act::Status("garbage"), Act::Status(""),
         Act::PrepComplement, Act::Challenge(0, 0), Act::Challenge(1, 1), Act::BadChallenge(0), Act::BadChallenge(1), Act::BadChallenge(2), Act::BadChallenge(3), Act::PrepReply,
         Act::AckReflect, Act::AckWrong, Act::AckShort, Act::Disconnect];
+    for n in [0u32, 1, 42, u32::MAX] { if r.revealed_current != Some(n) { v.push(Act::AckOfFixed(n)); } }
     if r.revealed_current.is_some() { v.push(Act::AckCurrent); v.push(Act::AckTrailing); }
     if r.revealed_stale.is_some() { v.push(Act::AckStale); }
     v
@@ -197,7 +201,7 @@ pub fn bfs(rep: &Report) -> (u64, u64, u64, usize, usize) {
             }
             if a == Act::AckCurrent && !ok { rep.violation("correct challenge acknowledgement rejected", detail()); }
             if a == Act::AckCurrent && ok && !now_connected { rep.violation("valid acknowledgement did not lead to the connected state", detail()); }
-            if matches!(a, Act::AckStale | Act::AckReflect | Act::AckWrong | Act::AckShort | Act::BadChallenge(_)) && ok {
+            if matches!(a, Act::AckStale | Act::AckReflect | Act::AckWrong | Act::AckShort | Act::AckOfFixed(_) | Act::BadChallenge(_)) && ok {
                 // a stale/reflected digest can only be right by coincidence of challenge values, which the alphabet excludes
                 rep.violation("malformed or wrong peer message accepted", detail());
             }
